@@ -195,6 +195,14 @@ class PowHsm(Device):
         return False
 
     def do_exit(self):
+        if self.mode == MODE_BOOTLOADER and not self.unlocked and self.platform == "ledger":
+            # leaving the bootloader without the PIN validated does not start the signer: the device is
+            # back where it was, waiting for the PIN (ux_handlers.c: the signer is run from the
+            # dashboard, which only comes up once the PIN was validated)
+            self.reset_session()
+            if self.exit_drops_link:
+                raise DropLink()
+            return self.ok(0xFF)
         self.mode = self.next_mode.get(self.mode, self.mode)
         self.reset_session()
         if self.exit_drops_link:
